@@ -69,7 +69,61 @@ pub trait Reg {
     fn offers(&self, t: Trans) -> bool;
     fn offers_clone(&self) -> bool;
     fn offers_resize(&self) -> bool;
+    /// further regions owned by the same object (key pairs): (protect, lock, bytes)
+    fn extra_parts(&self) -> Vec<(PM, LM, &[u8])> {
+        Vec::new()
+    }
 }
+
+/// Opaque composite objects built on the protected types outside `protected.rs`
+/// (locked key pairs, precomputed keys): no transitions of their own, only
+/// construction (Result-returning, may be refused part-way) and drop.
+macro_rules! composite {
+    ($name:ident, $ty:ty, $p:expr, $l:expr, |$o:ident| $first:expr, |$o2:ident| $extras:expr) => {
+        pub struct $name(pub $ty);
+        impl Reg for $name {
+            fn pstate(&self) -> (PM, LM) {
+                ($p, $l)
+            }
+            fn view(&self) -> Option<&[u8]> {
+                let $o = &self.0;
+                Some($first)
+            }
+            fn view_mut(&mut self) -> Option<&mut [u8]> {
+                None
+            }
+            fn trans(self: Box<Self>, _t: Trans) -> TransOut {
+                TransOut::NotOffered(self)
+            }
+            fn try_clone(&self) -> Option<Box<dyn Reg>> {
+                None
+            }
+            fn try_resize(&mut self, _n: usize) -> bool {
+                false
+            }
+            fn offers(&self, _t: Trans) -> bool {
+                false
+            }
+            fn offers_clone(&self) -> bool {
+                false
+            }
+            fn offers_resize(&self) -> bool {
+                false
+            }
+            fn extra_parts(&self) -> Vec<(PM, LM, &[u8])> {
+                let $o2 = &self.0;
+                $extras
+            }
+        }
+    };
+}
+
+composite!(KpLocked, dryoc::dryocbox::protected::LockedKeyPair, PM::RW, LM::L, |o| o.public_key.as_slice(), |o| vec![(PM::RW, LM::L, o.secret_key.as_slice())]);
+composite!(KpLockedRO, dryoc::dryocbox::protected::LockedROKeyPair, PM::RO, LM::L, |o| o.public_key.as_slice(), |o| vec![(PM::RO, LM::L, o.secret_key.as_slice())]);
+composite!(SkpLocked, dryoc::sign::protected::LockedSigningKeyPair, PM::RW, LM::L, |o| o.public_key.as_slice(), |o| vec![(PM::RW, LM::L, o.secret_key.as_slice())]);
+composite!(SkpLockedRO, dryoc::sign::SigningKeyPair<LockedRO<HeapByteArray<32>>, LockedRO<HeapByteArray<64>>>, PM::RO, LM::L, |o| o.public_key.as_slice(), |o| vec![(PM::RO, LM::L, o.secret_key.as_slice())]);
+composite!(PrecalcL, dryoc::precalc::PrecalcSecretKey<Locked<HeapByteArray<32>>>, PM::RW, LM::L, |o| o.as_slice(), |_o| Vec::new());
+composite!(PrecalcLRO, dryoc::precalc::PrecalcSecretKey<LockedRO<HeapByteArray<32>>>, PM::RO, LM::L, |o| o.as_slice(), |_o| Vec::new());
 
 /// What differs between the two containers.
 pub trait Cont: Zeroize + Bytes + MutBytes + NewBytes + Default + Clone + Lockable<Self> + NewLocked<Self> + Sized + 'static {
@@ -447,7 +501,27 @@ pub enum Ctor {
     Plain,
     DefaultLocked,
     NewBytesLocked,
+    // composites outside protected.rs
+    KeyPairNewLocked,
+    KeyPairGenLocked,
+    KeyPairGenReadonlyLocked,
+    SignKeyPairNewLocked,
+    SignKeyPairGenLocked,
+    SignKeyPairGenReadonlyLocked,
+    PrecalcLocked,
+    PrecalcReadonlyLocked,
 }
+
+pub const COMPOSITE_CTORS: [Ctor; 8] = [
+    Ctor::KeyPairNewLocked,
+    Ctor::KeyPairGenLocked,
+    Ctor::KeyPairGenReadonlyLocked,
+    Ctor::SignKeyPairNewLocked,
+    Ctor::SignKeyPairGenLocked,
+    Ctor::SignKeyPairGenReadonlyLocked,
+    Ctor::PrecalcLocked,
+    Ctor::PrecalcReadonlyLocked,
+];
 
 impl Ctor {
     fn name(&self) -> &'static str {
@@ -464,7 +538,18 @@ impl Ctor {
             Ctor::Plain => "plain",
             Ctor::DefaultLocked => "Default::default(locked)",
             Ctor::NewBytesLocked => "NewBytes::new_bytes(locked)",
+            Ctor::KeyPairNewLocked => "KeyPair::new_locked_keypair",
+            Ctor::KeyPairGenLocked => "KeyPair::gen_locked_keypair",
+            Ctor::KeyPairGenReadonlyLocked => "KeyPair::gen_readonly_locked_keypair",
+            Ctor::SignKeyPairNewLocked => "SigningKeyPair::new_locked_keypair",
+            Ctor::SignKeyPairGenLocked => "SigningKeyPair::gen_locked_keypair",
+            Ctor::SignKeyPairGenReadonlyLocked => "SigningKeyPair::gen_readonly_locked_keypair",
+            Ctor::PrecalcLocked => "PrecalcSecretKey::precalculate_locked",
+            Ctor::PrecalcReadonlyLocked => "PrecalcSecretKey::precalculate_readonly_locked",
         }
+    }
+    fn composite(&self) -> bool {
+        COMPOSITE_CTORS.contains(self)
     }
     /// does the API signature return a Result?
     fn fallible(&self) -> bool {
@@ -583,6 +668,7 @@ fn construct<A: Cont>(ctor: Ctor, src: &[u8]) -> Result<Box<dyn Reg>, String> {
         Ctor::DefaultLocked => Ok(bx(<Locked<A> as Default>::default())),
         Ctor::NewBytesLocked => Ok(bx(A::new_bytes_locked())),
         Ctor::StackMlock | Ctor::StackReadonly => Err("stack ctor on generic path".into()),
+        _ => Err("composite ctor on generic path".into()),
     }
 }
 
@@ -629,6 +715,27 @@ struct Region {
     contents: Vec<u8>,
     shrunk: bool,
     hist: Vec<String>,
+    extras: Vec<Sub>,
+}
+
+struct Sub {
+    p: PM,
+    l: LM,
+    ptr: usize,
+    len: usize,
+    contents: Vec<u8>,
+}
+
+/// one checkable region: a slot's main region or one of its extra parts
+struct ViewR<'a> {
+    slot: usize,
+    kind: &'a str,
+    p: PM,
+    l: LM,
+    ptr: usize,
+    len: usize,
+    contents: &'a [u8],
+    api: Option<&'a [u8]>,
 }
 
 #[derive(Clone)]
@@ -689,12 +796,16 @@ impl MemWorld {
     fn locked_pages_model(&self) -> usize {
         let mut pages: Vec<usize> = Vec::new();
         for r in self.slots.iter().flatten() {
-            if r.l == LM::L && r.len > 0 {
-                let first = r.ptr / self.page;
-                let last = (r.ptr + r.len - 1) / self.page;
-                for pg in first..=last {
-                    if !pages.contains(&pg) {
-                        pages.push(pg);
+            let mut parts: Vec<(LM, usize, usize)> = vec![(r.l, r.ptr, r.len)];
+            parts.extend(r.extras.iter().map(|x| (x.l, x.ptr, x.len)));
+            for (l, ptr, len) in parts {
+                if l == LM::L && len > 0 {
+                    let first = ptr / self.page;
+                    let last = (ptr + len - 1) / self.page;
+                    for pg in first..=last {
+                        if !pages.contains(&pg) {
+                            pages.push(pg);
+                        }
                     }
                 }
             }
@@ -721,11 +832,17 @@ impl MemWorld {
         if !shim::smaps(&mut scratch, &mut vmas) {
             out.harness_error("cannot read /proc/self/smaps".into());
         }
+        let mut views: Vec<ViewR> = Vec::new();
         for (si, r) in self.slots.iter().enumerate() {
-            let r = match r {
-                Some(r) => r,
-                None => continue,
-            };
+            if let Some(r) = r {
+                views.push(ViewR { slot: si, kind: &r.kind, p: r.p, l: r.l, ptr: r.ptr, len: r.len, contents: &r.contents, api: r.h.as_ref().and_then(|h| h.view()) });
+                for x in &r.extras {
+                    views.push(ViewR { slot: si, kind: &r.kind, p: x.p, l: x.l, ptr: x.ptr, len: x.len, contents: &x.contents, api: None });
+                }
+            }
+        }
+        for r in views.iter() {
+            let si = r.slot;
             if r.len == 0 {
                 continue;
             }
@@ -811,12 +928,12 @@ impl MemWorld {
             // contents
             let mut buf = vec![0u8; r.len];
             if shim::peek(r.ptr, &mut buf).is_some() {
-                if buf != r.contents {
+                if buf[..] != r.contents[..] {
                     let bad = buf.iter().zip(r.contents.iter()).filter(|(a, b)| a != b).count();
                     self.viol(out, "c14.contents", site(&[("container", &r.kind), ("event", evkind)]), format!("{} of {} bytes differ from the model after {}", bad, r.len, evkind), subject, Some(si));
                 }
             }
-            if let Some(v) = r.h.as_ref().and_then(|h| h.view()) {
+            if let Some(v) = r.api {
                 if v != &r.contents[..] {
                     self.viol(out, "c14.contents", site(&[("container", &r.kind), ("event", evkind)]), format!("the API view differs from the model after {}", evkind), subject, Some(si));
                 }
@@ -837,7 +954,16 @@ impl MemWorld {
     }
 
     fn snapshot(&self) -> Vec<Snap> {
-        self.slots.iter().enumerate().filter_map(|(i, r)| r.as_ref().map(|r| Snap { slot: i, ptr: r.ptr, len: r.len, shrunk: r.shrunk, kind: r.kind.clone() })).collect()
+        let mut v = Vec::new();
+        for (i, r) in self.slots.iter().enumerate() {
+            if let Some(r) = r {
+                v.push(Snap { slot: i, ptr: r.ptr, len: r.len, shrunk: r.shrunk, kind: r.kind.clone() });
+                for x in &r.extras {
+                    v.push(Snap { slot: i, ptr: x.ptr, len: x.len, shrunk: false, kind: r.kind.clone() });
+                }
+            }
+        }
+        v
     }
 
     /// C15 observer: every block released during the event must be all-zero.
@@ -890,7 +1016,8 @@ impl MemWorld {
     fn make_region(h: Box<dyn Reg>, kind: String, evkind: &str) -> Region {
         let (p, l) = h.pstate();
         let protected = h.protected();
-        let mut r = Region { h: Some(h), kind, protected, p, l, ptr: 0, len: 0, contents: Vec::new(), shrunk: false, hist: vec![evkind.to_string()] };
+        let extras: Vec<Sub> = h.extra_parts().into_iter().map(|(p, l, b)| Sub { p, l, ptr: b.as_ptr() as usize, len: b.len(), contents: b.to_vec() }).collect();
+        let mut r = Region { h: Some(h), kind, protected, p, l, ptr: 0, len: 0, contents: Vec::new(), shrunk: false, hist: vec![evkind.to_string()], extras };
         Self::refresh_ptr_contents(&mut r);
         r
     }
@@ -924,7 +1051,27 @@ impl MemWorld {
     }
 }
 
+fn construct_composite(ctor: Ctor) -> Result<Box<dyn Reg>, String> {
+    let e = |e: std::io::Error| e.to_string();
+    let pk: [u8; 32] = pattern(5, 32).try_into().unwrap();
+    let sk: [u8; 32] = pattern(9, 32).try_into().unwrap();
+    match ctor {
+        Ctor::KeyPairNewLocked => dryoc::dryocbox::protected::LockedKeyPair::new_locked_keypair().map(|k| bx(KpLocked(k))).map_err(e),
+        Ctor::KeyPairGenLocked => dryoc::dryocbox::protected::LockedKeyPair::gen_locked_keypair().map(|k| bx(KpLocked(k))).map_err(e),
+        Ctor::KeyPairGenReadonlyLocked => dryoc::dryocbox::protected::LockedROKeyPair::gen_readonly_locked_keypair().map(|k| bx(KpLockedRO(k))).map_err(e),
+        Ctor::SignKeyPairNewLocked => dryoc::sign::protected::LockedSigningKeyPair::new_locked_keypair().map(|k| bx(SkpLocked(k))).map_err(e),
+        Ctor::SignKeyPairGenLocked => dryoc::sign::protected::LockedSigningKeyPair::gen_locked_keypair().map(|k| bx(SkpLocked(k))).map_err(e),
+        Ctor::SignKeyPairGenReadonlyLocked => dryoc::sign::SigningKeyPair::<LockedRO<HeapByteArray<32>>, LockedRO<HeapByteArray<64>>>::gen_readonly_locked_keypair().map(|k| bx(SkpLockedRO(k))).map_err(e),
+        Ctor::PrecalcLocked => dryoc::precalc::PrecalcSecretKey::precalculate_locked(&pk, &sk).map(|k| bx(PrecalcL(k))).map_err(e),
+        Ctor::PrecalcReadonlyLocked => dryoc::precalc::PrecalcSecretKey::precalculate_readonly_locked(&pk, &sk).map(|k| bx(PrecalcLRO(k))).map_err(e),
+        _ => Err("not a composite ctor".into()),
+    }
+}
+
 fn construct_dyn(ctor: Ctor, array: Option<usize>, src: &[u8]) -> Result<Box<dyn Reg>, String> {
+    if ctor.composite() {
+        return construct_composite(ctor);
+    }
     match (ctor, array) {
         (Ctor::StackMlock, Some(n)) => construct_stack(n, false, src),
         (Ctor::StackReadonly, Some(n)) => construct_stack(n, true, src),
@@ -1042,13 +1189,21 @@ impl World for MemWorld {
                     if array.is_some() {
                         ctors.push(Ctor::StackMlock);
                     }
+                    // composites lock two regions: keep inside the walk's lock-request cap
+                    if self.lock_requests_seen + 2 <= MAX_LOCK_REQUESTS {
+                        for c in COMPOSITE_CTORS.iter() {
+                            ctors.push(*c);
+                        }
+                    }
                 }
                 if array.is_some() {
                     ctors.push(Ctor::StackReadonly);
                 }
                 let ctor = *rng.pick(&ctors);
+                let array = if ctor.composite() { None } else { array };
                 let len = match array {
                     Some(n) => n,
+                    None if ctor.composite() => 32,
                     None => pick_len(rng),
                 };
                 Some(Event::New { slot, ctor, array, len, fill: rng.next_u64() % 1000 })
@@ -1128,7 +1283,7 @@ impl World for MemWorld {
                 let r = guarded(|| construct_dyn(*ctor, *array, &src));
                 shim::disarm();
                 out.op();
-                let kind = Self::kind_of(*array, *ctor == Ctor::Plain);
+                let kind = if ctor.composite() { ctor.name().split("::").next().unwrap_or("composite").to_string() } else { Self::kind_of(*array, *ctor == Ctor::Plain) };
                 out.cell(&format!("new|{}|{}|{}", ctor.name(), if array.is_some() { "array" } else { "bytes" }, len_class(n, self.page)));
                 match r {
                     Ok(Ok(h)) => {
@@ -1137,6 +1292,7 @@ impl World for MemWorld {
                         let expect: Option<Vec<u8>> = match ctor {
                             Ctor::FromSliceLocked | Ctor::FromSliceReadonlyLocked | Ctor::PlainThenMlock | Ctor::StackMlock | Ctor::StackReadonly | Ctor::Plain => Some(src.clone()),
                             Ctor::NewLocked | Ctor::NewReadonlyLocked | Ctor::DefaultLocked | Ctor::NewBytesLocked => Some(vec![0u8; if array.is_some() { n } else { 0 }]),
+                            Ctor::KeyPairNewLocked | Ctor::SignKeyPairNewLocked => Some(vec![0u8; 32]),
                             _ => None,
                         };
                         if let Some(e) = expect {
